@@ -14,7 +14,18 @@ Richardson-extrapolated central differences of (a) the reference cost of C06 (in
 1e-12 + scipy.stats log-densities) and (b) pygom's own `cost` / `costIV`; (iii) HISTORY cases (losshist.py, oracle (a)):
 scripts of calls of all eleven entry points on one or two loss objects - sensitivity / gradient / jac / sensitivityIV /
 jacIV / diff_loss / diff_lossIV judged against the reference derivative for the values the object currently holds (the
-state machine `Held` / `step` of Pygom/Props/C06.lean); observations, x0, grid, weights, spreads in float and int containers.
+state machine `Held` / `step` of Pygom/Props/C06.lean); observations, x0, grid, weights, spreads in float and int containers;
+(iv) ROUND C families, same oracle (a)+(b): TIME-DEPENDENT models (losscommon.TD_CATALOGUE: a parameter that acts only during a
+window of time - bump / squared bump / box (Piecewise) / Heaviside difference / trapezoid (Max, Min) / ramp or step after a threshold
+time / early window from t0 - in an SIR import rate, a lock-down factor, a vaccination campaign (4 states), a LINEAR dosing chain; a
+parameter multiplying a state that is exactly zero until the window opens; a declared state that never changes), observation times
+after the window has closed, the reference integrated piecewise between the non-smooth time points (which do not depend on the
+parameters: the solution is smooth in the free variables at every fixed time); and SELECTIONS run through systematically:
+state_name / target_param / target_state each as all-in-non-declared-order, all-in-declared-order, default None, subset in
+non-declared order, on catalogue, time-dependent and random models; boundary values: a weight exactly 0 / exactly 1 for one observed
+state, weights that differ between the states, a single observation time, a parameter exactly 0 at the evaluation point; `jacIV`
+(with target_state) judged in every gradient case next to `jac`.  A disagreement with the first difference level is CONFIRMED on two
+finer Richardson levels before it is reported (`finer`).
 """
 import json
 import random
@@ -29,8 +40,8 @@ LEAN = {"module": "Pygom.Props.C07",
         "required": ["Pygom.C07.sens_index_spec", "Pygom.C07.sens_index_spec_IV", "Pygom.C07.grad_is_chain_rule",
                      "Pygom.C07.gradIV_is_chain_rule", "Pygom.C07.grad_is_chain_rule_partial",
                      "Pygom.C07.grad_order_counterexample", "Pygom.C07.model_variant"]}
-BUDGET = {"quick": {"cases": 420, "exact": 40, "per_batch": 12, "history": 448},
-          "thorough": {"cases": 6000, "exact": 300, "per_batch": 20, "history": 4800}}
+BUDGET = {"quick": {"cases": 420, "exact": 40, "per_batch": 12, "history": 448, "timedep": 144, "select": 144},
+          "thorough": {"cases": 6000, "exact": 300, "per_batch": 20, "history": 4800, "timedep": 1440, "select": 1440}}
 RULE = ("random bounded models and catalogue models as in C06; theta, x0, grids; 1-3 observed states in any order; target_param "
         "subsets in any order; target_state subsets in any order; five loss classes (non-unit weights for Square and Normal "
         "only, whose cost uses them); integrator methods lsoda / vode / ivode / dopri5 / dop853 on a share of cases; plus "
@@ -43,7 +54,16 @@ RULE = ("random bounded models and catalogue models as in C06; theta, x0, grids;
         "copy.deepcopy of a loss object; all four combinations of target_param / target_state; t0 != 0; theta as list / tuple / "
         "ndarray / numpy scalars; y, x0, t, weights, spread as float or int containers (integer observations for every class).  "
         "A history case is non-trivial when at least two calls were judged against the reference derivative for the values the "
-        "object currently holds.")
+        "object currently holds.  ROUND C gradient cases (same non-triviality rule as gradient cases; two loss classes per case, Square "
+        "always): `timedep` - every (model, window shape) pair of losscommon.TD_CATALOGUE x TD_SHAPES in turn (6 models, 8 shapes: "
+        "parameter acting only inside a time window, after a threshold time, from t0 until a closing time; a parameter multiplying a "
+        "state that is exactly zero until the window opens; linear dosing chain; a declared state that never changes), >= 1 observation "
+        "time after the window has closed, the windowed parameter always free, all states observed in a non-declared order / a subset "
+        "in non-declared order / any; `select` - (state_name, target_param, target_state) through all-permuted / all-declared / None / "
+        "subset-permuted (3 x 4 x 4 combinations in turn) on time-dependent, catalogue and random models; boundary values (tags "
+        "boundary:*): weight exactly 0 or exactly 1 for one observed state, weights differing between states (per-state vector or n x p "
+        "matrix), one observation time (one observed state: several states with one time are rejected by the unchanged constructor), "
+        "a parameter exactly 0 at the evaluation point; jac and jacIV judged in every gradient case (tags select:*, td-model:*, td-shape:*).")
 ASSUMPTIONS = ["integrating the variational (forward sensitivity) system yields the derivative of the flow in the parameters and the "
                "initial values (classical, not in Mathlib): hypothesis `hsens` of grad_is_chain_rule; validated per case against "
                "finite differences of an independent reference",
@@ -53,6 +73,12 @@ ASSUMPTIONS = ["integrating the variational (forward sensitivity) system yields 
                "finite differences: Richardson extrapolation of central differences with steps h, h/2, h = 2e-3 max(|u|, 0.05) on the "
                "1e-12 reference (tolerance 1e-4 (1+|fd|)) and h = 1e-2 max(|u|, 0.05) on pygom's own cost (tolerance 1e-3 (1+|fd|) "
                "+ 1e-7 scale / h, scale = sum of absolute per-entry loss terms: pygom integrates at 1e-10)",
+               "a disagreement between the code and the first finite-difference level (steps h, h/2) is reported only after two finer "
+               "Richardson levels (h/4, h/8) and (h/16, h/32) of the reference agree with each other to a tenth of the tolerance and still "
+               "disagree with the code (tag fd-refined:*): on stiff trajectories (FitzHugh) the first level can be outside its asymptotic range",
+               "time-dependent catalogue: the non-smooth time points of the window shapes do not depend on parameters or initial values, so "
+               "the reference solution at a fixed time is a smooth function of the free variables; the reference integrates piecewise between "
+               "those points (ref_traj_td); pygom integrates across them with its own error control (observed agreement ~1e-7)",
                "history cases: the Lean model takes the gradient and the Jacobian as pure functions of (theta, x0, data, layout); the loss "
                "object is read as holding the parameter values and initial values it was last given through ANY entry point (constructor, "
                "cost, costIV, sensitivityIV, ...), parameters outside target_param are the model object's current values "
@@ -60,7 +86,8 @@ ASSUMPTIONS = ["integrating the variational (forward sensitivity) system yields 
                "weight x diff_loss = d(per-entry loss term)/d(prediction)"]
 TRUSTED = ["harness generator and reference: scipy.integrate.solve_ivp(DOP853), scipy.stats log-densities, Richardson differences",
            "right-hand side of the reference: Lean driver `assemble` output (C01) compiled by losscommon.compile_rhs; hand-written "
-           "for catalogue models", "Lean driver JSON codec"]
+           "for catalogue models and for the time-dependent catalogue (losscommon.TD_CATALOGUE, window shapes as plain Python max / min / "
+           "comparisons)", "Lean driver JSON codec"]
 
 METHODS = ["lsoda", "vode", "ivode", "dopri5", "dop853"]
 SPREAD_RANGE = {"Normal": (0.3, 2.0), "Gamma": (1.0, 5.0), "NegBinom": (0.5, 5.0)}
@@ -87,6 +114,136 @@ def _grad_case(r, want_order=None, want_tp=None):
     return {"kind": "grad", "setup": s, "weights": w, "spreads": spreads, "target_param": tp, "target_state": ts,
             "noise_seed": r.getrandbits(32), "style": r.randrange(30),
             "methods": (METHODS if r.random() < 0.15 else []), "full_output": r.random() < 0.3}
+
+
+def _non_identity_perm(r, names):
+    names = list(names)
+    if len(names) < 2:
+        return names
+    while True:
+        out = r.sample(names, len(names))
+        if out != names:
+            return out
+
+
+def _subset_not_ascending(r, names):
+    """a selection of >= 2 (when possible) of the names, NOT in the declared order"""
+    names = list(names)
+    if len(names) < 2:
+        return names
+    k = r.randint(2, len(names))
+    sub = sorted(r.sample(names, k), key=names.index, reverse=True)
+    if k >= 3 and r.random() < 0.5:
+        sub = sub[1:] + sub[:1]
+    return sub
+
+
+def _boundary(r, case, force=None):
+    """round-c boundary values, written into the case (tags boundary:*): a weight exactly 0 / exactly 1 for one observed state,
+    weights that differ between the states, a single observation time, a parameter exactly 0 at the point of evaluation"""
+    s = case["setup"]
+    n, p = len(s["times"]), len(s["obs"])
+    b = []
+    u = r.random()
+    if p > 1 and (force == "weights" or u < 0.45):
+        w = [round(r.uniform(0.5, 2.0), 3) for _ in range(p)]
+        k = r.randrange(p)
+        mode = r.choice(["zero", "one", "distinct"])
+        if mode == "zero":
+            w[k] = 0.0
+        elif mode == "one":
+            w[k] = 1.0
+        b.append("weight-%s-for-one-state" % mode)
+        if r.random() < 0.5:
+            case["weights"] = ["per-state", w]
+        else:
+            case["weights"] = ["matrix", [[round(v * r.choice([1.0, 1.0, 0.5, 2.0]), 3) for v in w] for _ in range(n)]]
+    if r.random() < 0.15:
+        k = r.randrange(len(s["params"]))
+        s["theta_eval"][k] = 0.0
+        b.append("parameter-exactly-zero")
+    case["boundary"] = b
+    return case
+
+
+def _restrict_classes(r, case):
+    case["classes"] = ["Square", r.choice(["Normal", "Poisson", "Gamma", "NegBinom"])]
+    return case
+
+
+def _finish_case(r, s, tp, ts):
+    n, p = len(s["times"]), len(s["obs"])
+    spreads = {}
+    for cls, (lo, hi) in SPREAD_RANGE.items():
+        k, v = LC.gen_shaped(r, n, p, lo, hi, allow_none=False)
+        if r.random() < 0.15:
+            k, v = "default", None
+        spreads[cls] = [k, v]
+    w = list(LC.gen_shaped(r, n, p, 0.5, 2.0))
+    if n == 1 and w[0] in ("per-state", "per-obs", "scalar-list"):
+        w = ["matrix", [[round(r.uniform(0.5, 2.0), 3) for _ in range(p)]]]       # unambiguous shape for a single observation time
+    if n == 1:
+        for cls in spreads:
+            if spreads[cls][0] in ("per-state", "per-obs", "scalar-list"):
+                spreads[cls] = ["scalar", round(r.uniform(*SPREAD_RANGE[cls]), 3)]
+    return {"kind": "grad", "setup": s, "weights": w, "spreads": spreads, "target_param": tp, "target_state": ts,
+            "noise_seed": r.getrandbits(32), "style": r.randrange(30), "methods": (METHODS if r.random() < 0.08 else []),
+            "full_output": r.random() < 0.3}
+
+
+def _td_case(r, i):
+    """TIME-DEPENDENT models (losscommon.TD_CATALOGUE): every (model, window shape) pair in turn; observation times after the
+    window has closed; the windowed parameter is always among the free parameters"""
+    names = sorted(LC.TD_CATALOGUE)
+    shapes = sorted(LC.TD_SHAPES)
+    name = names[i % len(names)]
+    shape = shapes[(i // len(names)) % len(shapes)]
+    n_times = 1 if r.random() < 0.08 else None
+    s = LC.gen_setup_td(r, name=name, shape=shape, n_times=n_times)
+    c = LC.TD_CATALOGUE[name]
+    states, params = s["states"], s["params"]
+    mode = (i // (len(names) * len(shapes))) % 4
+    if mode == 0:
+        s["obs"] = _non_identity_perm(r, states)                      # full selection, permuted
+    elif mode == 1:
+        s["obs"] = _subset_not_ascending(r, states)
+    tp, ts = LC.gen_targets(r, params, states, p_tp=0.5, p_ts=0.5)
+    if tp is not None and c["windowed"] is not None and c["windowed"] not in tp:
+        tp[r.randrange(len(tp))] = c["windowed"]
+        tp = list(dict.fromkeys(tp))
+    if name == "SIR_constN" and "N" not in s["obs"] and r.random() < 0.6:
+        s["obs"] = s["obs"][:2] + ["N"]                               # an observed state that never changes
+    if n_times == 1:
+        # a single observation time: the unchanged pygom accepts it for ONE observed state only (with several states the
+        # (1, p) weight matrix is flattened and the constructor stops with "Input weight not of the same size as y")
+        s["obs"] = [r.choice(s["obs"])]
+    case = _finish_case(r, s, tp, ts)
+    case["family"] = "timedep"
+    return _restrict_classes(r, _boundary(r, case))
+
+
+def _select_case(r, i):
+    """FULL SELECTIONS IN PERMUTED ORDER, systematically: (state_name, target_param, target_state) each run through
+    all-in-non-declared-order / all-in-declared-order (explicit list) / default None / subset in non-declared order"""
+    src = i % 4
+    if src == 0:
+        s = LC.gen_setup_td(r, shape=r.choice(sorted(LC.TD_SHAPES)))
+    elif src == 3:
+        s = LC.gen_setup(r, catalogue_share=0.0)
+    else:
+        s = LC.gen_setup(r, catalogue_share=1.0)
+    states, params = s["states"], s["params"]
+    j = i // 4
+    om, pm, sm = j % 3, (j // 3) % 4, (j // 12) % 4
+    s["obs"] = [_non_identity_perm(r, states), list(states), _subset_not_ascending(r, states)][om]
+    tp = [None, _non_identity_perm(r, params), list(params), _subset_not_ascending(r, params)][pm]
+    ts = [None, _non_identity_perm(r, states), _subset_not_ascending(r, states), list(states)][sm]
+    case = _finish_case(r, s, tp, ts)
+    case["family"] = "select"
+    case["select"] = {"obs": ["all-permuted", "all-declared", "subset-permuted"][om],
+                      "target_param": ["none", "all-permuted", "all-declared", "subset-permuted"][pm],
+                      "target_state": ["none", "all-permuted", "subset-permuted", "all-declared"][sm]}
+    return _restrict_classes(r, _boundary(r, case, force="weights" if om == 0 and r.random() < 0.6 else None))
 
 
 def _exact_case(r, per_batch):
@@ -121,12 +278,21 @@ def make_cases(rng, tier, budget):
     for i in range(budget.get("history", 0)):
         r = random.Random(rng.getrandbits(64))
         cases.append(LH.gen_history(r, i + shift, HIST_JUDGED))
+    shift2 = rng.randrange(1000)                    # drawn AFTER everything above: the earlier families are unchanged
+    for i in range(budget.get("timedep", 0)):
+        r = random.Random(rng.getrandbits(64))
+        cases.append(_td_case(r, i + shift2))
+    for i in range(budget.get("select", 0)):
+        r = random.Random(rng.getrandbits(64))
+        cases.append(_select_case(r, i + shift2))
     return cases
 
 
 def search_cases(rng, tier, budget):
     return ([_grad_case(random.Random(rng.getrandbits(64))) for _ in range(budget["cases"] * 2)] +
-            [LH.gen_history(random.Random(rng.getrandbits(64)), i, HIST_JUDGED) for i in range(budget.get("history", 0) * 2)])
+            [LH.gen_history(random.Random(rng.getrandbits(64)), i, HIST_JUDGED) for i in range(budget.get("history", 0) * 2)] +
+            [_td_case(random.Random(rng.getrandbits(64)), i) for i in range(budget.get("timedep", 0) * 2)] +
+            [_select_case(random.Random(rng.getrandbits(64)), i) for i in range(budget.get("select", 0) * 2)])
 
 
 # --------------------------------------------------------------------------- exact batches
@@ -239,6 +405,21 @@ def fd_ladder(f, u0, k, h0, scale, rel=1e-3, levels=4):
 
 
 def classify(site, cls, case, states, params, got, fd):
+    m = case["setup"]["model"]
+    td = m["src"] == "td" and m["shape"] != LC.TD_AUTONOMOUS
+    if td:
+        # is it exactly the component of the parameter that acts only during the time window?
+        wp = LC.TD_CATALOGUE[m["name"]]["windowed"]
+        fp = list(case["target_param"]) if case["target_param"] is not None else list(params)
+        g, f = np.asarray(got, float).ravel(), np.asarray(fd, float).ravel()
+        if wp in fp and g.shape == f.shape and g.size >= len(fp) and not site.startswith("jac"):
+            bad = np.abs(g - f) > 1e-3 * (1 + np.abs(f))
+            if bad[fp.index(wp)] and int(bad.sum()) == 1:
+                return "%s:%s:wrong-value:component-of-the-time-windowed-parameter" % (site, cls)
+    return _classify(site, cls, case, states, params, got, fd, order_label=not td) + (":time-dependent-model" if td else "")
+
+
+def _classify(site, cls, case, states, params, got, fd, order_label=True):
     s = case["setup"]
     tp, ts, obs = case["target_param"], case["target_state"], s["obs"]
     got = np.asarray(got, float); fd = np.asarray(fd, float)
@@ -247,7 +428,7 @@ def classify(site, cls, case, states, params, got, fd):
             return "gradient-order:target_param-not-ascending"
         if ts is not None and len(ts) > 1 and LC.order_class(states, ts) == "not-ascending":
             return "gradient-order:target_state-not-ascending"
-    if len(obs) > 1 and LC.order_class(states, obs) == "not-ascending":
+    if order_label and len(obs) > 1 and LC.order_class(states, obs) == "not-ascending":
         return "gradient:observed-states-not-ascending"
     return "%s:%s:wrong-value:%d-state%s%s%s" % (site, cls, len(obs), "s" if len(obs) > 1 else "",
                                                 ":target_param" if tp is not None else "", ":weights=" + case["weights"][0] if case["weights"][0] != "none" else "")
@@ -256,9 +437,18 @@ def classify(site, cls, case, states, params, got, fd):
 def run_grad(case):
     s = case["setup"]
     mism, viol, tags = [], [], []
-    model, rhs, err = LC.build_model(s)
+    try:
+        model, rhs, err = LC.build_model_any(s)
+    except Exception as exc:
+        if s["model"]["src"] != "td":
+            raise
+        # a model text the tree under test cannot build (the unchanged tree builds every entry of TD_CATALOGUE)
+        return {"nontrivial": False, "mismatches": [], "tags": ["build_error:td"],
+                "violations": [{"what": "time-dependent model %s/%s cannot be built: %s: %s" % (s["model"]["name"], s["model"]["shape"], type(exc).__name__, str(exc)[:200]),
+                                "signature": "build:time-dependent-model:raises:%s" % type(exc).__name__, "detail": json.dumps(s["model"])}]}
     if err:
         return {"nontrivial": False, "mismatches": [{"what": "build", "detail": err}], "violations": [], "tags": ["build_error"]}
+    ref_traj = lambda th_, x0_, t0_, times_, **kw_: LC.ref_traj_any(s, rhs, th_, x0_, t0_, times_, **kw_)
     states, params, obs = s["states"], s["params"], s["obs"]
     tp, ts = case["target_param"], case["target_state"]
     n, q = len(s["times"]), len(obs)
@@ -266,6 +456,19 @@ def run_grad(case):
     fp = list(tp) if tp is not None else list(params)          # free parameters, in the order supplied
     fs = list(ts) if ts is not None else list(states)          # free initial values, in the order supplied
     oc = LC.order_class(states, obs) if q > 1 else "single"
+    if s["model"]["src"] == "td":
+        tags += ["td-model:" + s["model"]["name"], "td-shape:" + s["model"]["shape"]]
+    if case.get("family"):
+        tags.append("family:" + case["family"])
+    tags += ["boundary:" + b for b in case.get("boundary", [])]
+    if n == 1:
+        tags.append("boundary:single-observation-time")
+    if q == len(states) and q > 1:
+        tags.append("select:all-states-observed:" + ("declared-order" if obs == states else "permuted"))
+    if tp is not None and len(tp) == len(params) and len(tp) > 1:
+        tags.append("select:target_param-all:" + ("declared-order" if tp == params else "permuted"))
+    if ts is not None and len(ts) == len(states) and len(ts) > 1:
+        tags.append("select:target_state-all:" + ("declared-order" if ts == states else "permuted"))
     tags += ["src:" + s["model"]["src"], "q=%d" % q, "order:" + oc, "weights:" + case["weights"][0],
              "target_param:" + ("all" if tp is None else LC.order_class(params, tp) if len(tp) > 1 else "one"),
              "target_state:" + ("all" if ts is None else LC.order_class(states, ts) if len(ts) > 1 else "one")]
@@ -283,8 +486,8 @@ def run_grad(case):
                 x0[states.index(k)] = v
         return th, x0
 
-    bx = LC.box(s)
-    tr_true = LC.ref_traj(rhs, th_base, s["x0"], s["t0"], s["times"], **bx)
+    bx = LC.box_any(s)
+    tr_true = ref_traj(th_base, s["x0"], s["t0"], s["times"], **bx)
     if tr_true is None:
         return {"nontrivial": False, "mismatches": mism, "violations": viol, "tags": tags + ["reference-failed-or-outside-box"]}
     data = LC.make_data(s, tr_true, LC.CLASSES, "perturbed", case["noise_seed"])
@@ -293,7 +496,7 @@ def run_grad(case):
         """reference trajectories at u and at u +- h e_k, u +- h/2 e_k"""
         out = {}
         th, x0 = full(u, with_x0)
-        base = LC.ref_traj(rhs, th, x0, s["t0"], s["times"], **bx)
+        base = ref_traj(th, x0, s["t0"], s["times"], **bx)
         if base is None:
             return None, None, None
         hs = {}
@@ -304,12 +507,39 @@ def run_grad(case):
             for d in (h, -h, h / 2, -h / 2):
                 uu = list(u); uu[k] += d
                 th, x0 = full(uu, with_x0)
-                t = LC.ref_traj(rhs, th, x0, s["t0"], s["times"], **bx)
+                t = ref_traj(th, x0, s["t0"], s["times"], **bx)
                 if t is None:
                     return None, None, None
                 pts.append(t)
             out[k] = pts
         return base, out, hs
+
+    _finer = {}
+
+    def finer(with_x0, k):
+        """CONFIRMATION of a disagreement before it is reported: two more Richardson levels for coordinate k, steps (h/4, h/8)
+        and (h/16, h/32) -> (derivative of the reference trajectory from the finer level, the two sets of four trajectories) or None.
+        The first level (h, h/2) can be outside the asymptotic range on stiff / strongly non-linear trajectories (FitzHugh, c ~ 3):
+        its two difference quotients then agree to 1% and are both 10% off; nothing is reported unless the two finer levels
+        agree with each other to a tenth of the tolerance and still disagree with the code."""
+        key = (with_x0, k)
+        if key not in _finer:
+            u = list(u0) if with_x0 else list(u0[:r])
+            h = (h_iv if with_x0 else h_p)[k]
+            lv = []
+            for hh in (h / 4, h / 16):
+                pts = []
+                for d in (hh, -hh, hh / 2, -hh / 2):
+                    uu = list(u); uu[k] += d
+                    th, x0 = full(uu, with_x0)
+                    t = ref_traj(th, x0, s["t0"], s["times"], **bx)
+                    if t is None:
+                        pts = None
+                        break
+                    pts.append(t)
+                lv.append((pts, hh))
+            _finer[key] = None if any(p_ is None for p_, _ in lv) else lv
+        return _finer[key]
 
     base_p, tr_p, h_p = fd_trajs(u0[:r], False, range(r), 2e-3)
     base_iv, tr_iv, h_iv = fd_trajs(u0, True, range(len(u0)), 2e-3)
@@ -364,17 +594,56 @@ def run_grad(case):
             continue
         evaluated += 1
 
-        def compare(site, got, fd, fd_err, tol_extra=0.0, rel=1e-4):
+        def refine_grad(with_x0):
+            """finer reference derivative of the COST in coordinate k"""
+            def f(k, cell=None):
+                lv = finer(with_x0, k)
+                if lv is None:
+                    return None
+                (p1, h1), (p2, h2) = lv
+                return richardson([cost_of(t) for t in p1], h1)[0], richardson([cost_of(t) for t in p2], h2)[0]
+            return f
+
+        def refine_jac(with_x0):
+            """finer reference derivative of observed state a at time i in coordinate b; flat index = i*(q*nv) + a + b*q"""
+            nv = len(u0) if with_x0 else r
+            def f(flat):
+                i, col = divmod(flat, q * nv)
+                b, a = divmod(col, q)
+                lv = finer(with_x0, b)
+                if lv is None:
+                    return None
+                (p1, h1), (p2, h2) = lv
+                return (richardson([t[i, idx[a]] for t in p1], h1)[0], richardson([t[i, idx[a]] for t in p2], h2)[0])
+            return f
+
+        def compare(site, got, fd, fd_err, tol_extra=0.0, rel=1e-4, refine=None):
             got = np.asarray(got, float).ravel()
             if got.shape != fd.shape:
                 viol.append({"what": "%s of %sLoss has %d entries for %d free variables" % (site, cls, got.size, fd.size),
                              "signature": "%s:%s:length" % (site, cls), "detail": "got %s fd %s" % (got.tolist(), fd.tolist())})
                 return
             ok_fd = fd_err <= 1e-2 * (1 + np.abs(fd))           # the difference quotient itself must have converged
-            if not np.all(ok_fd):
-                tags.append("fd-not-converged:" + site.split("/")[0])
             tol = rel * (1 + np.abs(fd)) + tol_extra
             bad = (np.abs(got - fd) > tol) & ok_fd
+            if np.any(bad) and refine is not None:
+                # confirm on two finer levels before anything is reported (see `finer`)
+                fd, ok_fd = np.array(fd, float), np.array(ok_fd, bool)
+                for j in np.nonzero(bad)[0][:64]:
+                    rr = refine(int(j))
+                    if rr is None:
+                        ok_fd[j] = False
+                        continue
+                    r1, r2 = rr
+                    fd[j] = r2
+                    ok_fd[j] = abs(r2 - r1) <= 0.1 * rel * (1 + abs(r2))
+                for j in np.nonzero(bad)[0][64:]:
+                    ok_fd[j] = False
+                tags.append("fd-refined:" + site.split("/")[0])
+                tol = rel * (1 + np.abs(fd)) + tol_extra
+                bad = (np.abs(got - fd) > tol) & ok_fd
+            if not np.all(ok_fd):
+                tags.append("fd-not-converged:" + site.split("/")[0])
             margins.append(float(np.max(np.where(ok_fd, np.abs(got - fd) / tol, 0.0))) if got.size else 0.0)
             if np.any(bad):
                 viol.append({"what": "%s of %sLoss is not the derivative of the cost in the free variables, in the order supplied" % (site, cls),
@@ -390,7 +659,7 @@ def run_grad(case):
                 g = call()
                 if site == "sensitivity":
                     g_sens = g
-                compare(site + "/reference-cost", g, g_ref, g_err)
+                compare(site + "/reference-cost", g, g_ref, g_err, refine=refine_grad(False))
             except Exception as exc:
                 viol.append({"what": "%s of %sLoss raised %s: %s" % (site, cls, type(exc).__name__, str(exc)[:200]),
                              "signature": raise_sig(site, exc), "detail": json.dumps({k: case[k] for k in ("target_param", "target_state", "weights")}) + " obs=%s" % obs})
@@ -407,7 +676,7 @@ def run_grad(case):
             if case["full_output"]:
                 try:
                     gfo = obj.sensitivity(u0[:r], full_output=True)[0]
-                    compare("sensitivity(full_output)/reference-cost", gfo, g_ref, g_err)
+                    compare("sensitivity(full_output)/reference-cost", gfo, g_ref, g_err, refine=refine_grad(False))
                 except Exception as exc:
                     viol.append({"what": "sensitivity(full_output=True) of %sLoss raised %s: %s" % (cls, type(exc).__name__, str(exc)[:200]),
                                  "signature": "sensitivity-full_output:%sLoss:raises:%s" % (cls, type(exc).__name__), "detail": ""})
@@ -415,7 +684,7 @@ def run_grad(case):
                 try:
                     gm = obj.sensitivity(u0[:r], method=m)
                     tags.append("method:" + m)
-                    compare("sensitivity(method=%s)/reference-cost" % m, gm, g_ref, g_err)
+                    compare("sensitivity(method=%s)/reference-cost" % m, gm, g_ref, g_err, refine=refine_grad(False))
                 except Exception as exc:
                     viol.append({"what": "sensitivity(method=%s) of %sLoss raised %s: %s" % (m, cls, type(exc).__name__, str(exc)[:200]),
                                  "signature": "sensitivity-method:%s:%sLoss:raises:%s" % (m, cls, type(exc).__name__), "detail": ""})
@@ -431,7 +700,7 @@ def run_grad(case):
                 if J.shape != Jref.shape:
                     viol.append({"what": "jac has shape %s, expected %s" % (J.shape, Jref.shape), "signature": "jac:shape", "detail": ""})
                 else:
-                    compare("jac/reference-trajectory", J.ravel(), Jref.ravel(), Jerr.ravel())
+                    compare("jac/reference-trajectory", J.ravel(), Jref.ravel(), Jerr.ravel(), refine=refine_jac(False))
             except Exception as exc:
                 viol.append({"what": "jac raised %s: %s" % (type(exc).__name__, str(exc)[:200]), "signature": "jac:raises:%s" % type(exc).__name__, "detail": ""})
         # ---- parameters and initial values
@@ -439,9 +708,27 @@ def run_grad(case):
             tags.append("IV-skipped:length-equals-num_param")
             continue
         gi_ref, gi_err = ref_grad(tr_iv, h_iv, range(len(u0)))
+        # jacIV: columns a + b*q  <->  d yhat[:, a] / d free variable b  (free parameters in the order of target_param, then the
+        # free initial values in the order of target_state)
+        if cls == "Square":
+            try:
+                nv = len(u0)
+                J = np.asarray(obj.jacIV(list(u0)), float)
+                Jref = np.zeros((n, q * nv)); Jerr = np.zeros((n, q * nv))
+                for b in range(nv):
+                    d_, e_ = richardson([t[:, idx] for t in tr_iv[b]], h_iv[b])
+                    for a in range(q):
+                        Jref[:, a + b * q] = d_[:, a]; Jerr[:, a + b * q] = e_[:, a]
+                if J.shape != Jref.shape:
+                    viol.append({"what": "jacIV has shape %s, expected %s" % (J.shape, Jref.shape), "signature": "jacIV:shape", "detail": ""})
+                else:
+                    compare("jacIV/reference-trajectory", J.ravel(), Jref.ravel(), Jerr.ravel(), refine=refine_jac(True))
+            except Exception as exc:
+                viol.append({"what": "jacIV raised %s: %s" % (type(exc).__name__, str(exc)[:200]),
+                             "signature": ("jacIV:target_state-raises" if ts is not None and isinstance(exc, TypeError) else "jacIV:raises:%s" % type(exc).__name__), "detail": ""})
         try:
             gi = obj.sensitivityIV(list(u0))
-            compare("sensitivityIV/reference-cost", gi, gi_ref, gi_err)
+            compare("sensitivityIV/reference-cost", gi, gi_ref, gi_err, refine=refine_grad(True))
             gb, eb, hb = [], [], []
             for k in range(len(u0)):
                 d_, e_, h = fd_ladder(obj.costIV, list(u0), k, 1e-2 * max(abs(u0[k]), 0.05), scale)
